@@ -95,7 +95,7 @@ class Transformer(BaseEstimator, TransformerMixin, ABC):
             # Convert DataArray to Dataset
             coords = {}
             data_vars = {}
-            if data.name in data.coords:
+            if data.name in data.coords and data.identical(data.coords[data.name]):
                 # Convert a coord-like DataArray to Dataset and note multiindexes
                 if isinstance(data.to_index(), pd.MultiIndex):
                     multiindexes[data.name] = [n for n in data.to_index().names]
@@ -104,6 +104,9 @@ class Transformer(BaseEstimator, TransformerMixin, ABC):
                 # Make sure the DataArray has some name so we can create a string mapping
                 if data.name is None:
                     data.name = key
+                elif data.name in data.coords:
+                    # A data array that merely shares its name with one of its coordinates
+                    data = data.rename(key)
                 data_vars[data.name] = data
             ds = xr.Dataset(data_vars=data_vars, coords=coords)
             name_map = data.name
